@@ -25,6 +25,7 @@ type modStream struct {
 	mu       sync.Mutex
 	sent     []*spb.ModifyResponse
 	sendErr  error // when set, Send fails
+	slow     time.Duration // every Send takes that long (a client that drains its stream slowly)
 	closeErr error // what Recv returns once in is closed
 	closed   bool
 }
@@ -49,6 +50,12 @@ func (m *modStream) Recv() (*spb.ModifyRequest, error) {
 }
 
 func (m *modStream) Send(r *spb.ModifyResponse) error {
+	m.mu.Lock()
+	d := m.slow
+	m.mu.Unlock()
+	if d > 0 {
+		time.Sleep(d)
+	}
 	m.mu.Lock()
 	defer m.mu.Unlock()
 	if m.sendErr != nil {
@@ -153,6 +160,13 @@ func (m *modStream) Take(from int) []*spb.ModifyResponse { return m.take(from) }
 func (m *modStream) FailSends(err error) {
 	m.mu.Lock()
 	m.sendErr = err
+	m.mu.Unlock()
+}
+
+// SlowSends makes every further Send of the stream take d.
+func (m *modStream) SlowSends(d time.Duration) {
+	m.mu.Lock()
+	m.slow = d
 	m.mu.Unlock()
 }
 
